@@ -13,6 +13,8 @@ public class JDrive {
   static String esc(String s) { StringBuilder o = new StringBuilder(); for (char c : s.toCharArray()) { if (c == '"' || c == '\\') { o.append('\\').append(c); } else if (c < 0x20 || c >= 0x7f) o.append(String.format("\\u%04x", (int) c)); else o.append(c); } return o.toString(); }
   static String dl(String d) { return d.isEmpty() ? "[]" : "[[" + d.replace(";", "],[") + "]]"; }
   /** "ok,hi,lo/ok,hi,lo" -> [[ok,0,[[hi,lo]]],...]: the C outcomes at the two neighbouring arguments, in the shape of the "c" field */
+  // is x bit-equal to one of this implementation's own edge energies of element Z?  (then a comparison of x with that edge is exact on both sides)
+  static boolean jedge(int Z, double x) { for (int sh = 0; sh < 31; sh++) { try { if (Xraylib.EdgeEnergy(Z, sh) == x) return true; } catch (RuntimeException e) { } } return false; }
   static String alts(String a) { if (a.isEmpty()) return "[]"; StringBuilder sb = new StringBuilder("["); for (String p : a.split("/")) { String[] q = p.split(","); if (sb.length() > 1) sb.append(",");
       sb.append("[").append(q[0]).append(",0,").append(q[0].equals("1") ? "[[" + q[1] + "," + q[2] + "]]" : "[]").append("]"); } return sb.append("]").toString(); }
   static Map<String, Method> cache = new HashMap<>();
@@ -113,7 +115,7 @@ public class JDrive {
       // fn | sig | i0 | i1 | d0 | d1 | d2 | s | c_ok | c_hash | c_doubles(;-separated bit pairs)
       String fn = t[0], sig = t[1]; int i0 = Integer.parseInt(t[2]), i1 = Integer.parseInt(t[3]);
       double[] d = new double[3]; for (int k = 0; k < 3; k++) d[k] = Double.longBitsToDouble(Long.parseLong(t[4 + k]));
-      String s = t[7]; int cok = Integer.parseInt(t[8]); long chash = Long.parseLong(t[9]); String cd = t[10]; String extra = t.length > 11 ? t[11] : ""; String alt = t.length > 12 ? t[12] : "";
+      String s = t[7]; int cok = Integer.parseInt(t[8]); long chash = Long.parseLong(t[9]); String cd = t[10]; String extra = t.length > 11 ? t[11] : ""; String alt = t.length > 12 ? t[12] : ""; boolean cedge = t.length > 13 && t[13].equals("1");
       if (fn.equals("CrystalDef")) { define(s, cd, extra); continue; }
       List<Class<?>> types = new ArrayList<>(); List<Object> args = new ArrayList<>(); int ii = 0, di = 0;
       for (char ch : sig.toCharArray()) { if (ch == 'I') { types.add(int.class); args.add(ii++ == 0 ? i0 : i1); } else if (ch == 'D') { types.add(double.class); args.add(d[di++]); } else { types.add(String.class); args.add(s); } }
@@ -127,7 +129,7 @@ public class JDrive {
       catch (InvocationTargetException e) { jok = 0; exc = e.getCause().getClass().getSimpleName(); }
       if (jok == cok && (cok == 0 || (jhash == chash && jd.equals(cd)))) { same++; continue; }
       { if (diffs.length() > 0) diffs.append(",");
-        diffs.append("{\"a\":[" + i0 + "," + i1 + "],\"d\":[" + bits(d[0]) + "," + bits(d[1]) + "," + bits(d[2]) + "],\"s\":\"" + esc(s) + "\",\"c\":[" + cok + "," + chash + "," + dl(cd) + "],\"j\":[" + jok + "," + jhash + "," + dl(jd) + "],\"sc\":" + (extra.isEmpty() ? "[0,0]" : "[" + extra + "]") + ",\"alt\":" + alts(alt) + ",\"exc\":\"" + exc + "\"}"); }
+        diffs.append("{\"a\":[" + i0 + "," + i1 + "],\"d\":[" + bits(d[0]) + "," + bits(d[1]) + "," + bits(d[2]) + "],\"s\":\"" + esc(s) + "\",\"c\":[" + cok + "," + chash + "," + dl(cd) + "],\"j\":[" + jok + "," + jhash + "," + dl(jd) + "],\"sc\":" + (extra.isEmpty() ? "[0,0]" : "[" + extra + "]") + ",\"alt\":" + alts(alt) + ",\"xe\":" + (cedge && jedge(i0, d[0]) ? 1 : 0) + ",\"exc\":\"" + exc + "\"}"); }
     }
     for (String m : missing) out.println("{\"k\":\"jmissing\",\"fn\":\"" + m + "\"}");
     Set<String> all = new TreeSet<>(); for (Method m : Xraylib.class.getDeclaredMethods()) if (Modifier.isPublic(m.getModifiers()) && Modifier.isStatic(m.getModifiers())) all.add(m.getName());
